@@ -133,6 +133,8 @@ inline uint64_t hash_outputs(const ApiCase& c, const ExecResult& r) {
   }
   return h;
 }
+inline std::string& lsm_pending_fault() { static std::string s; return s; }
+inline bool& lsm_protect_sources() { static bool on = true; return on; }  // off while several threads run ops (the trap is process-global harness state)  // set by an op that caught a write into a read-only operand
 inline void add_module_ops(std::vector<LsmOp>& ops, const std::vector<uint64_t>& Ns, uint64_t salt = 0) {
   gen_salt() = salt;
   BoxOpts o; o.Ns = Ns; o.max_size = 2; o.extra_sizes = {}; o.vmp_max_dim = 2; o.vmp_max_size = 2; o.ks = {10}; o.cf = {CFG_NATIVE}; o.inplace = true;
@@ -146,11 +148,19 @@ inline void add_module_ops(std::vector<LsmOp>& ops, const std::vector<uint64_t>&
       for (size_t i = 0; i < c.bufs.size(); ++i) if (c.bufs[i].alias_of >= 0) { al = true; if (c.bufs[root_of(c, (int)i)].role != R_IN) inpl = true; }
       if (al && !inpl) return;  // two sources sharing one buffer: not an in-place call
       (al ? last_inplace : last) = std::make_shared<ApiCase>(c); });
-    // each representative with 64-byte aligned buffers and with buffers at 8 modulo 64 (alignment-keyed code paths on both sides)
-    for (auto& rep : {last, last_inplace}) for (int off : {0, 8}) {
+    // each representative with four alignment patterns (all buffers 64-byte aligned; all at 8 modulo 64; only the sources aligned;
+    // only the sources unaligned): alignment-keyed code paths on both sides.  Pure sources are read-only mappings during the call
+    // (shared const data: a transient write is a race even if the old value is put back).
+    static const char* ALN[4] = {"@+0", "@+8", "@src0", "@src8"};
+    for (auto& rep : {last, last_inplace}) for (int al = 0; al < 4; ++al) {
       if (!rep) continue;
-      LsmOp op; op.name = rep->id + sfmt("@+%d", off) + (salt ? sfmt("#data%llu", (unsigned long long)salt) : std::string()); op.family = "module"; op.warm_key = "";
-      op.run = [rep, off] { ExecResult r; ExecOpts eo; eo.prefill = 1; for (int i = 0; i < 12; ++i) eo.off[i] = off; execute(*rep, eo, r); return hash_outputs(*rep, r); };
+      if (al >= 2) { bool has_src = false; for (auto& b : rep->bufs) if (b.role == R_IN && b.bytes) has_src = true; if (!has_src) continue; }
+      LsmOp op; op.name = rep->id + ALN[al] + (salt ? sfmt("#data%llu", (unsigned long long)salt) : std::string()); op.family = "module"; op.warm_key = "";
+      op.run = [rep, al] { ExecResult r; ExecOpts eo; eo.prefill = 1; eo.protect_inputs = lsm_protect_sources();
+        for (int i = 0; i < 12 && i < (int)rep->bufs.size(); ++i) { bool src = rep->bufs[i].role == R_IN; if (al == 1 || (al == 2 && !src) || (al == 3 && src)) eo.off[i] = 8; }
+        execute(*rep, eo, r);
+        if (r.input_write_fault >= 0) lsm_pending_fault() = sfmt("the call writes into its read-only operand '%s' (data that other threads may be reading)", rep->bufs[r.input_write_fault].name.c_str());
+        return hash_outputs(*rep, r); };
       ops.push_back(op);
     }
   }
@@ -264,7 +274,8 @@ struct Lsm {
         TrapInfo& t = trap_info();
         t.armed = 1;
         alloc_track().poison = 0x00;  // environment answer: fresh heap memory reads as zero here, as 0xA5 / 0xFF elsewhere - no result may depend on it
-        if (sigsetjmp(t.jb, 1) == 0) { base[k].out = ops[k].run(); t.armed = 0; }
+        lsm_pending_fault().clear();
+        if (sigsetjmp(t.jb, 1) == 0) { base[k].out = ops[k].run(); t.armed = 0; if (enforce_imm && !lsm_pending_fault().empty()) report(LSM_IMM, "lsm|baseline|" + ops[k].name, lsm_pending_fault()); }
         else { report(LSM_IMM, "lsm|baseline|" + ops[k].name, sfmt("in the initial state the call writes storage that must be immutable: %s", lsm_where(t.addr).c_str())); _exit(0); }
         std::vector<std::pair<uint32_t, uint32_t>> rg;
         diff_ranges(before, rg);
@@ -304,6 +315,7 @@ struct Lsm {
     if (protect) lsm_protect(true); else before.assign(I.stat, I.stat + I.stat_len);
     t.armed = 1;
     alloc_track().poison = 0xA5;
+    lsm_pending_fault().clear();
     if (sigsetjmp(t.jb, 1) == 0) { out = op.run(); t.armed = 0; alloc_track().poison = -1; if (protect) lsm_protect(false); }
     else {
       alloc_track().poison = -1;
@@ -312,6 +324,7 @@ struct Lsm {
                                !protect ? "a module / table object created earlier" : op.warm_key.empty() ? "module / table operation" : op.tls_cached ? "its cache is thread-local" : "the function was already warmed up for this dimension"));
       return 0;
     }
+    if (enforce_imm && !lsm_pending_fault().empty()) { report(LSM_IMM, id, lsm_pending_fault()); lsm_pending_fault().clear(); }
     if (!protect && enforce_imm) {
       std::vector<std::pair<uint32_t, uint32_t>> rg;
       diff_ranges(before, rg);
